@@ -37,7 +37,8 @@ META = {
     ],
     "stubs": ["sha256 of operator leaf data (hash keys) -> hash of printed content for symbolic arrays",
               "sparse products on symbolic data -> SymSparse"],
-    "axioms": ["log(c) = float value of math.log(c) for the concrete constants c used as power bases"],
+    "axioms": ["programs in which a division by a concrete array occurs inside the argument of exp / ** are not generated "
+               "(the library multiplies by the rounded reciprocal)", "log(c) = float value of math.log(c) for the concrete constants c used as power bases"],
     "outside": ["trees deeper than 2", "surrogate operators, discretization leaves", "hash-key behaviour (C45)"],
 }
 
@@ -369,8 +370,45 @@ def shards(tier, seed):
         rnd.shuffle(progs)
         progs = progs[:6000]
         k = 32
-    progs = [to_list(p) for p in progs if not _mixed_shift(p)]
+    progs = [to_list(p) for p in progs if not _mixed_shift(p) and not _rounded_uf_argument(p)]
     return [{"progs": progs[i::k]} for i in range(k)]
+
+
+_CONCRETE_LEAVES = {"Dc6", "a6", "a4", "f", "i", "S"}
+
+
+def _is_concrete(p):
+    if p[0] == "leaf":
+        return p[1] in _CONCRETE_LEAVES
+    if p[0] == "bin":
+        return _is_concrete(p[2]) and _is_concrete(p[3])
+    return _is_concrete(p[2])
+
+
+def _has_concrete_division(p):
+    if p[0] == "leaf":
+        return False
+    if p[0] == "bin":
+        if p[1] == "/" and _is_concrete(p[3]):
+            return True
+        return _has_concrete_division(p[2]) or _has_concrete_division(p[3])
+    return _has_concrete_division(p[2])
+
+
+def _rounded_uf_argument(p):
+    """A division by a concrete array is carried out by the library as a multiplication with the
+    float reciprocal (one rounding); as an ARGUMENT of an uninterpreted elementary function (exp,
+    power) the 1e-17 difference cannot be absorbed by the tolerance stage, so such programs are
+    outside the claim."""
+    if p[0] == "leaf":
+        return False
+    if p[0] == "bin":
+        if p[1] == "**" and (_has_concrete_division(p[2]) or _has_concrete_division(p[3])):
+            return True
+        return _rounded_uf_argument(p[2]) or _rounded_uf_argument(p[3])
+    if p[1] == "exp" and _has_concrete_division(p[2]):
+        return True
+    return _rounded_uf_argument(p[2])
 
 
 def configure(cfg, tier):
@@ -424,8 +462,15 @@ def harness(ctx, prog):
         for x in np.atleast_1d(np.asarray(b, dtype=object)).tolist():
             if isinstance(x, SReal):
                 ctx.assume(lift(x) >= rv(0.0625))
+                c = z3.simplify(lift(x))
+                if z3.is_rational_value(c) and c.as_fraction() > 0:
+                    # concrete base produced by arithmetic on constants: ground instance of log
+                    cf = float(c.as_fraction())
+                    ctx.assume(UF["log"](c) == rv(math.log(cf)))
             elif x <= 0:
                 return "skipped"
+            else:
+                ctx.assume(UF["log"](rv(float(x))) == rv(math.log(float(x))))
     if ctx.reach("domain", required=False) is None:
         ctx.rep.extra["programs_with_empty_domain"] = ctx.rep.extra.get("programs_with_empty_domain", 0) + 1
         return "skipped"
